@@ -133,9 +133,11 @@ func (c *vRW) Write(p []byte) (int, error) {
 }
 
 // vModeSrc reads with a chunking mode fixed for the path: 0 whole, 1 one byte per read,
-// 2 nondeterministic per read (all / 1 / 2 bytes).
+// 2 nondeterministic per read (all / 1 / 2 bytes), 3 whole reads with the final bytes delivered
+// together with io.EOF.
 func vNewSrc(data []byte, mode int, name string) vSrc {
-	return vSrc{data: data, name: name, whole: mode == 0, one: mode == 1}
+	// mode 3: whole reads, the last bytes delivered together with io.EOF
+	return vSrc{data: data, name: name, whole: mode == 0 || mode == 3, one: mode == 1, eofWith: mode == 3}
 }
 
 // vReadAllB drains r with a caller buffer of size B, tolerating (0,nil) reads.
@@ -291,11 +293,12 @@ func vGenStreamX(server bool, k int, maxPayload int, asciiText bool, complete bo
 
 // vCutSrc serves data[:cut] and then EOF or an error.
 type vCutSrc struct {
-	data   []byte
-	cut    int
-	pos    int
-	useErr bool
-	one    bool
+	data     []byte
+	cut      int
+	pos      int
+	useErr   bool
+	one      bool
+	withData bool // report the end (EOF or error) together with the last bytes before the cut
 }
 
 var vErrSrc = &vErr{"harness: transport failed"}
@@ -319,6 +322,12 @@ func (s *vCutSrc) Read(p []byte) (int, error) {
 	}
 	copy(p, s.data[s.pos:s.pos+n])
 	s.pos += n
+	if s.withData && s.pos >= s.cut {
+		if s.useErr {
+			return n, vErrSrc
+		}
+		return n, io.EOF
+	}
 	return n, nil
 }
 
